@@ -86,6 +86,10 @@ Definition L_ws_netaccept := cl fn_ws_netaccept ws_netaccept.
 
 Definition L_swarm_addlisten := cl fn_swarm_addlisten swarm_addlisten.
 
+Definition L_stream_close := cl fn_stream_close stream_close.
+Definition L_stream_reset := cl fn_stream_close stream_reset.
+Definition L_stream_reset_err := cl fn_stream_close stream_reset_err.
+
 Definition st_conn := mkSt Held Held Absent Absent 0 false None None [] false.   (* raw conn + scope given *)
 Definition st_raw := mkSt Held Absent Absent Absent 0 false None None [] false.    (* raw conn given, scope is the caller's *)
 Definition st_stream := mkSt Absent Absent Held Held 0 false None None [] false.
@@ -123,7 +127,11 @@ Definition entries : list (string * bool * st * list (list aev)) :=
    ("webrtc WebRTCTransport.Dial", true, st0, L_rtc_dial);
    ("websocket listener.ServeHTTP", false, st0, L_ws_serve);
    ("websocket httpNetListener.Accept", true, st0, L_ws_netaccept);
-   ("Swarm.AddListenAddr", true, st0, L_swarm_addlisten)].
+   ("Swarm.AddListenAddr", true, st0, L_swarm_addlisten);
+   (* finishing calls: every return, with or without an error, must leave the stream released *)
+   ("Stream.Close", false, st_sstream, L_stream_close);
+   ("Stream.Reset", false, st_sstream, L_stream_reset);
+   ("Stream.ResetWithError", false, st_sstream, L_stream_reset_err)].
 
 Definition entry_ok (e : string * bool * st * list (list aev)) : bool :=
   let '(_, vr, init, ps) := e in forallb (path_ok vr init) ps.
